@@ -8,6 +8,7 @@ import asyncio
 import hashlib
 import json
 import os
+import random
 import struct
 import tempfile
 import shutil
@@ -1103,6 +1104,133 @@ def check_legacy(run, model, env, rng):
             s.unsigned_payload = keep
 
 
+# ------------------------------------------------------------------ channel key encodings
+KEY_CORPUS = '/verif/harness/corpus/C04/channel_key_encodings.json'
+SPKI_UNCOMPRESSED = bytes.fromhex('3056301006072a8648ce3d020106052b8104000a034200')   # id-ecPublicKey, secp256k1, BIT STRING(65)
+SPKI_COMPRESSED = bytes.fromhex('3036301006072a8648ce3d020106052b8104000a032200')     # id-ecPublicKey, secp256k1, BIT STRING(33)
+SECP_N = ecdsa.SECP256k1.order
+
+
+def independent_channel_key(encoded):
+    """compressed secp256k1 key carried by a channel's public_key field, decoded without lbry/asn1crypto/coincurve"""
+    if len(encoded) == 33:
+        point = encoded
+    elif encoded.startswith(SPKI_UNCOMPRESSED) and len(encoded) == 88:
+        point = encoded[len(SPKI_UNCOMPRESSED):]
+    elif encoded.startswith(SPKI_COMPRESSED) and len(encoded) == 56:
+        point = encoded[len(SPKI_COMPRESSED):]
+    else:
+        raise ValueError('unknown channel key encoding')
+    return ecdsa.VerifyingKey.from_string(point, curve=ecdsa.SECP256k1).to_string('compressed')
+
+
+def channel_with_encoded_key(rng, key, encoded, name='@enc'):
+    txo = Output.pay_claim_name_pubkey_hash(CENT, name, Claim(), rng.randbytes(20))
+    txo.claim.channel.public_key_bytes = encoded
+    txo.script.generate()
+    txo.private_key = key
+    Transaction().add_inputs([Input.spend(funding_output(rng, COIN, rng.randbytes(20), rng.randrange(0, 3)))]).add_outputs([txo])
+    return txo
+
+
+def check_channel_key_encodings(run, env, rng, secret, origin):
+    """'A claim or support signed by a channel validates against that channel ... for all keys': the channel claim may
+    carry its key raw (33 bytes, current), as DER SubjectPublicKeyInfo with the uncompressed point (earlier releases) or as
+    DER SubjectPublicKeyInfo with the compressed point; Channel.public_key_bytes is the one place that decodes them."""
+    sk = ecdsa.SigningKey.from_string(secret, curve=ecdsa.SECP256k1)
+    compressed = sk.verifying_key.to_string('compressed')
+    uncompressed = sk.verifying_key.to_string('uncompressed')
+    negated = bytes([compressed[0] ^ 1]) + compressed[1:]
+    x_parity_matches = (compressed[-1] & 1) == (compressed[0] & 1)
+    key = PrivateKey.from_bytes(None, secret)
+    encodings = [('raw-33', compressed, negated),
+                 ('der-uncompressed-88', SPKI_UNCOMPRESSED + uncompressed,
+                  SPKI_UNCOMPRESSED + ecdsa.VerifyingKey.from_string(negated, curve=ecdsa.SECP256k1).to_string('uncompressed')),
+                 ('der-compressed-56', SPKI_COMPRESSED + compressed, SPKI_COMPRESSED + negated)]
+    for label, encoded, encoded_negated in encodings:
+        for kind in ('claim', 'support'):
+            channel = channel_with_encoded_key(rng, key, encoded)
+            chan_raw = channel.tx_ref.tx.raw
+            if kind == 'support':
+                sup = Support()
+                sup.comment = 'c%d' % rng.randrange(1000)
+                txo = Output.pay_support_data_pubkey_hash(CENT, 'name', rng.randbytes(20).hex(), sup, rng.randbytes(20))
+            else:
+                txo = Output.pay_claim_name_pubkey_hash(CENT, 'name%d' % rng.randrange(9), random_claim(rng), rng.randbytes(20))
+            tx = Transaction().add_inputs([Input.spend(funding_output(rng, COIN, rng.randbytes(20), rng.randrange(0, 3)))]).add_outputs([txo])
+            txo.sign(channel)
+            tx._reset()
+            raw = tx.raw
+            case = {'kind': 'channel-key-encoding', 'origin': origin, 'secret': secret.hex(), 'encoding': label,
+                    'signed': kind, 'channel_public_key_field': encoded.hex(), 'raw': raw.hex(), 'channel_tx': chan_raw.hex()}
+            run.case(case, nontrivial=True, sample=False)
+            run.count('channel-key-encoding:' + label)
+            run.count('channel-key x-parity %s y-parity' % ('==' if x_parity_matches else '!='))
+            sig = {'kind': 'channel-key-encoding', 'encoding': label, 'secret': secret.hex(), 'signed': kind}
+            expected = independent_channel_key(encoded)
+            if expected != compressed:
+                run.violation(case, 'harness: independent key decoder disagrees with the key derived from the secret', signature=sig)
+                continue
+            if not independent_channel_verdict(raw, 0, kind, expected):
+                run.violation(case, f'a {kind} signed by the channel does not verify with independent ecdsa under the channel key',
+                              signature=sig)
+                continue
+            # every node sees both transactions only as bytes
+            try:
+                channel_read = Transaction(chan_raw).outputs[0]
+                signed_read = Transaction(raw).outputs[0]
+                got = channel_read.claim.channel.public_key_bytes
+                ok = bool(signed_read.is_signed_by(channel_read, env.ledger))
+                err = ''
+            except Exception as e:  # noqa
+                got, ok, err = None, False, f' ({type(e).__name__}: {e})'
+            if not ok or got != expected:
+                run.violation(case, f'a {kind} signed by a channel does not validate against that channel when the channel claim '
+                                    f'stores its key as {label} ({len(encoded)} bytes): channel key decoded as '
+                                    f'{got.hex() if got else None}, the key in the field is {expected.hex()}; '
+                                    f'is_signed_by -> {ok}{err}', signature=sig)
+                continue
+            # "stops validating if the channel is changed": the same channel claim carrying the negated point (same x, same
+            # encoding, other y) and the same claim id must not validate; one signature bit flipped must not validate
+            n = 0
+            for changed_label, changed in (('negated point', encoded_negated),):
+                other = Transaction(chan_raw).outputs[0]
+                other.claim.channel.public_key_bytes = changed
+                n += 1
+                if other.claim_hash == channel_read.claim_hash and \
+                        _still_valid(lambda: signed_read.is_signed_by(other, env.ledger)):
+                    run.violation(case, f'{kind} still validates after the channel key ({label}) was replaced by the {changed_label}',
+                                  signature=sig)
+            keep = signed_read.signable.signature
+            s2 = bytearray(keep)
+            s2[rng.randrange(64)] ^= 1 << rng.randrange(8)
+            signed_read.signable.signature = bytes(s2)
+            n += 1
+            if _still_valid(lambda: signed_read.is_signed_by(channel_read, env.ledger)):
+                run.violation(case, f'{kind} with one signature bit flipped still validates against a channel with a {label} key',
+                              signature=sig)
+            signed_read.signable.signature = keep
+            run.count('mutations', n)
+
+
+def channel_key_secrets(run, rng):
+    """corpus keys, then random keys until both classes (low bit of x equal / not equal to the parity of y) occur at least
+    `want` times among the random ones: deterministic per seed"""
+    out = [(bytes.fromhex(e['secret']), 'corpus') for e in json.load(open(KEY_CORPUS))]
+    out += [((1).to_bytes(32, 'big'), 'boundary:1'), ((SECP_N - 1).to_bytes(32, 'big'), 'boundary:n-1')]
+    want = vlib.scaled(run.tier, 3, 40)
+    seen = {True: 0, False: 0}
+    while min(seen.values()) < want:
+        secret = rng.randrange(1, SECP_N).to_bytes(32, 'big')
+        c = ecdsa.SigningKey.from_string(secret, curve=ecdsa.SECP256k1).verifying_key.to_string('compressed')
+        cls = (c[-1] & 1) == (c[0] & 1)
+        if seen[cls] >= want:
+            continue
+        seen[cls] += 1
+        out.append((secret, 'random'))
+    return out
+
+
 class StubServer:
     """the wallet-server calls Ledger.resolve() needs (resolve, get_transaction_batch), answered from raw transactions"""
 
@@ -1249,9 +1377,16 @@ def main(run):
                 'hash, other channel, message bit flips, title, first input; extra protobuf fields appended/prepended to the payload on the wire, '
                 'library verdict == independent verdict), every third claim carrying fields unknown to this schema; object histories '
                 '(sign/clear/edit/re-read from fresh, current-signed and earlier-release starts). legacy fixtures from upstream tests. '
+                'channel key encodings: corpus + boundary + random secp256k1 keys of both classes (low bit of x == / != parity of y), '
+                'each stored in the channel claim raw (33), as DER SPKI with the uncompressed point (88) and as DER SPKI with the '
+                'compressed point (56); a claim and a support signed by it, both transactions re-read from bytes, must validate and '
+                'decode to the independently decoded key, and stop validating for the negated point / a flipped signature bit. '
                 'distinct = distinct raw transaction; all non-trivial.')
     try:
         check_legacy(run, model, env, rng)
+        key_rng = random.Random('c04-channel-keys-%s' % run.seed)   # own stream: the older generators keep their draws
+        for secret, origin in channel_key_secrets(run, key_rng):
+            check_channel_key_encodings(run, env, key_rng, secret, origin)
         check_resolve(run, env, rng)
         for variant in ('update-then-rotate', 'rotate-at-once'):
             check_wallet_history(run, loop, rng, variant)
